@@ -739,7 +739,9 @@ def check_endpoint(ctx, cfg, col):
            'the send state must move to the ACK-wait state exactly when the last word is issued and the transmitter takes it '
            '(tx.ready | ~any(tx.valid)): %s' % [(R(k[0]), 'expected ' + R(k[1]), M.show(v)) for k, v in exp.items()])
     vdrv = [a for a in M.items(S_send) if a.domain != 'comb' and a.lhs.canon() == I + 'tx.valid']
-    if set(casef) == {0, 1, 2, 3}:
+    # the residues are exclusive and exhaustive: with three of the four compared, the fourth is 'none of them' (a default
+    # assignment before the Switch, or m.Default)
+    if set(casef) <= {0, 1, 2, 3} and len(casef) >= 3:
         for r in range(4):
             asg = {TXR: True, TXZ: False, LWc: True}
             for k_, c in casef.items():
